@@ -337,3 +337,90 @@ def replay_as_dict(bname, model, meta):
     got = c.as_dict()['freq']
     return {'confirmed': got == 60, 'as_dict_after_assignment': got, 'attribute': c.freq,
             'native_cmd': "Config('X', freq=60); as_dict(); config.freq = 50; as_dict()['freq'] -> 60 (stale)"}
+
+
+
+def cfg_load(pid):
+    """Config.load: the fields of the section named after this configuration object (and of no other section) are added; nothing
+    happens without a parser or without that section."""
+    from pyvc.symval import Mark, TOptional, Bo
+
+    def contains(ex, st, args, kw, node):
+        cont, item = args
+        if isinstance(cont, Mark) and cont.kind == 'parser':
+            st.ghost['asked'] = item
+            return st.ghost['has']
+        return NotImplemented
+
+    def getitem(ex, st, args, kw, node):
+        base, sl = args
+        if isinstance(base, Mark) and base.kind == 'parser':
+            return Mark('section', ex.ev(sl, st))
+        return NotImplemented
+
+    def odict(ex, st, args, kw, node):
+        return Mark('odict', args[0])
+
+    def add(ex, st, args, kw, node):
+        st.ghost['added'] = st.ghost['added'] + [args[0] if args else None]
+        return None
+
+    def post(old, new, res):
+        name = old.get('self._name')
+        added = new.st.ghost['added']
+        if old.st.env['config'] is None:
+            return z3.BoolVal(added == [])
+        want = Mark('odict', Mark('section', name))
+        ok_add = len(added) == 1 and isinstance(added[0], Mark) and added[0].kind == 'odict' and added[0].data[0].kind == 'section' \
+            and added[0].data[0].data[0] is name
+        asked = new.st.ghost.get('asked')
+        return z3.And(z3.BoolVal(asked is name), z3.If(new.st.ghost['has'], z3.BoolVal(bool(ok_add)), z3.BoolVal(added == [])))
+    out = []
+    for none in (False, True):
+        c = Contract(FC, 'Config.load', pid=pid, params={'self': TObj(), 'config': TConst(None) if none else TConst(Mark('parser'))},
+                     schema={'self._name': TStr()}, ghost_init={'added': [], 'has': lambda v: fresh('has_section', Bo), 'asked': None},
+                     calls={'__contains__': contains, '__getitem__': getitem, 'OrderedDict': odict, 'self.add': add},
+                     globals_={'OrderedDict': Func('OrderedDict')},
+                     ensures=[('adds-exactly-the-section-named-after-this-object,if-present', post)], modifies=[])
+        c.merge = False
+        c.tag = 'no-parser' if none else 'parser'
+        out.append(c)
+    return out
+
+
+def bounded_save_load(pack, pid):
+    """bounded native stand-in: save_config then a new System from that file reproduces every field of every configuration with its
+    type (fields set to an int, a float whose repr has a signed exponent, a small float and a string beforehand)"""
+    from contracts.packutil import native_guard
+    name = '%s/andes/system.py:System.save_config;System.__init__/bounded:saved-configuration-reloads-with-equal-values-and-types' % pid
+
+    def go():
+        import logging
+        import os
+        import shutil
+        import tempfile
+        import andes
+        logging.getLogger('andes').setLevel(logging.CRITICAL)
+        tmp = tempfile.mkdtemp(prefix='verif_rc_')
+        try:
+            # values supplied through options (a direct attribute assignment would run into the stale as_dict cache: F20)
+            a = andes.System(default_config=True, no_undill=True,
+                             config_option=['TDS.tf=7', 'TDS.tol=2.5e-5', 'TDS.ddelta_limit=1e16', 'PFlow.sparselib=umfpack'])
+            path = a.save_config(os.path.join(tmp, 'andes.rc'), overwrite=True)
+            b = andes.System(config_path=path, no_undill=True)
+            owners = [('System', a.config, b.config)] + [(n, r.config, b.routines[n].config) for n, r in a.routines.items()] + \
+                [(n, m.config, b.models[n].config) for n, m in a.models.items()]
+            for oname, ca, cb in owners:
+                da, db = ca.as_dict(refresh=True), cb.as_dict(refresh=True)
+                for k, v in da.items():
+                    w = db.get(k, '<missing>')
+                    if type(v) is not type(w) or v != w:
+                        return {'config': oname, 'field': k, 'saved': repr(v), 'reloaded': repr(w)}
+            return None
+        finally:
+            shutil.rmtree(tmp, ignore_errors=True)
+    bad = native_guard(pack, name, go)
+    pack.bounded.append({'function': 'System.save_config / config loading', 'kind': 'bounded native (one save / load round trip, all fields)',
+                         'counted_as_proved': False})
+    if bad:
+        pack.violation(name, {'bounded': True, 'inputs': bad, 'native_cmd': 'System.save_config(path); System(config_path=path); compare every field'})
